@@ -16,7 +16,9 @@ def run(c, replay):
     nprogs = 10 if c.tier == "quick" else 100
     mask = S.mask("COMMIT", "FINI_ENTRY", "GVT", "GVT_DRAIN", "FOSSIL")
     progs, runs = C.campaign(c, ctx, r, nprogs, mask, c.tier, extra_cfgs=[(2, 1, 20), (3, 2, 0)])
-    runs = runs + C.lp_campaign(c, ctx, r, 10 if c.tier == "quick" else 150, mask)
+    lpruns = C.lp_campaign(c, ctx, r, 10 if c.tier == "quick" else 150, mask)
+    wcov = C.worker_report(c, lpruns)
+    runs = runs + lpruns
     ok, ncommit, nontriv, byvar = 0, 0, 0, {}
     for run_ in runs:
         res, pr = run_["res"], run_["prog"]
@@ -51,6 +53,7 @@ def run(c, replay):
         if tot > 10:
             nontriv += 1
     C.finish(c, ctx)
+    c.cov.update(wcov)
     c.cov.update(evaluations=len(runs), distinct_nontrivial=nontriv, runs_returned=ok, committed_events_checked=ncommit, by_variant=byvar,
                  rule="interpreter programs ended by predicate / termination time / RootsimStop x thread, checkpoint and GVT configurations "
                       "(periods down to 0); per LP the committed sequence (timestamp, type, size, payload digest) must be a prefix of the sequential one; "
